@@ -144,6 +144,7 @@ func genChoices(r *rand.Rand, nUE int) refamf.Choices {
 	ch.WithAMBR = r.Intn(2) == 0
 	ch.BackupAMFName = r.Intn(3) == 0
 	ch.AfterRegMsg = pick(r, 0, 0, 0, 1, 2, 3)
+	ch.SetupReqLen = pick(r, 0, 0, 0, 0, 2048, 2048, 2047, 1024, 600+r.Intn(1400))
 	ch.NGSetupRespLen = pick(r, 0, 0, 0, 0, 2048, 2048, 2047, 1024, 512, 300+r.Intn(1700))
 	return ch
 }
